@@ -305,6 +305,7 @@ def _o_get_stats(call):
 
 
 def install():
+    probe.enable_recall("C18.recall", every=5)
     m = "esutil.stat.util:"
     probe.instrument(m + "wmom", [_o_wmom], also=["esutil.stat"])
     probe.instrument(m + "wmedian", [_o_wmedian], also=["esutil.stat"])
